@@ -22,8 +22,9 @@ TRUSTED = ["Coq 8.16.1 kernel, vm_compute for the correspondence evaluation and 
 CASE_IMPORTS = [("PW.model", "M_shapes")]
 ASSUMPTIONS = ["theorems are about exact real arithmetic; binary64 rounding is covered only by the tolerance of the "
                "correspondence check on sampled inputs",
-               "`isinstance(x, float)` cannot be passed by a symbolic value: cube and triangular_prism are traced with a "
-               "concrete float size/height (symbolic origin/points); the dependence on size/height is tied by correspondence"]
+               "cube and triangular_prism test `isinstance(x, float)`: while tracing, `isinstance` is shadowed in the module "
+               "globals of polliwog.shapes._shapes so that the symbolic size/height counts as a float (run time only); the "
+               "rejection of non-floats is tied by correspondence and oracle"]
 
 _IMPORTS = [("PW.model", "M_shapes"), ("PW.proofs", "P_vec"), ("PW.proofs", "P_mat"), ("PW.proofs", "P_shapes")]
 _SUNF = ("cbv [vecs_of tri_flat_list rectangular_prism_flat flatten rect_prism_faces rect_prism_quads quads_to_tris quad_to_tris "
@@ -36,6 +37,28 @@ TRI_FACES = [0, 1, 2, 0, 3, 4, 0, 4, 1, 1, 4, 5, 1, 5, 2, 2, 5, 3, 2, 3, 0, 5, 4
 
 def _faces_coq(rows):
     return "[%s]%%nat" % "; ".join("(%d, %d, %d)" % tuple(int(x) for x in r) for r in rows)
+
+
+def _sym_is_float(fn):
+    """cube / triangular_prism test `isinstance(x, float)`. During tracing the symbolic scalar STANDS FOR a Python float:
+    shadow `isinstance` in the module's globals (run time only, /repo untouched) so that the test accepts it; every other
+    isinstance query, and every concrete argument, is answered by the builtin."""
+    import builtins
+    import polliwog.shapes._shapes as sh
+    import symtrace
+
+    def traced_isinstance(x, t):
+        if t is float and isinstance(x, symtrace.Sym):
+            return True
+        return builtins.isinstance(x, t)
+
+    def run(**kw):
+        sh.__dict__["isinstance"] = traced_isinstance
+        try:
+            return fn(**kw)
+        finally:
+            sh.__dict__.pop("isinstance", None)
+    return run
 
 
 def kernels():
@@ -84,36 +107,43 @@ Qed.""" % {"faces": _faces_coq(rect_faces), "O": O, "S": S, "sunf": _SUNF},
 Proof. intros. unfold {T}. %(sunf)s. list_eq_ring. Qed.""" % {"O": O, "S": S, "sunf": _SUNF},
         imports=_IMPORTS, expect_structure={"shape": [12, 3, 3], "data": ["e"] * 108}))
 
-    # ---- cube: size must be a Python float, so it is concrete in the trace --------------------------------------
+    # ---- cube: symbolic size (see _sym_is_float) ------------------------------------------------------------------
     ks.append(Kernel(
-        "cube_indexed", {"o": [1.0, 2.0, 3.0]},
-        lambda o: cube(o, 2.5, ret_unique_vertices_and_faces=True),
-        """Lemma {T}_ok : forall {vars} : R, vecs_of ({T} ROps {vars}) = rect_prism_vertices ROps %(O)s (V3 (5/2) (5/2) (5/2)).
-Proof. intros. unfold {T}. %(sunf)s; unfold nfrac; rops. repeat (apply cons_eq; [apply V3_ext; field|]). reflexivity. Qed.""" % {"O": O, "sunf": _SUNF},
+        "cube_indexed", {"o": [1.0, 2.0, 3.0], "s": [2.5]},
+        _sym_is_float(lambda o, s: cube(o, s[0], ret_unique_vertices_and_faces=True)),
+        """Lemma {T}_ok : forall {vars} : R, vecs_of ({T} ROps {vars}) = rect_prism_vertices ROps %(O)s (V3 s0 s0 s0).
+Proof. intros. unfold {T}. %(sunf)s. repeat (apply cons_eq; [apply V3_ext; ring|]). reflexivity. Qed.
+Lemma {T}_property : forall {vars} : R, 0 <= s0 ->
+  signed_volume ROps (vecs_of ({T} ROps {vars})) rect_prism_faces = s0 * s0 * s0 /\\
+  surface_area ROps (vecs_of ({T} ROps {vars})) rect_prism_faces = 6 * (s0 * s0).
+Proof.
+  intros {vars} H. rewrite {T}_ok. split; [rewrite rect_volume; reflexivity|].
+  rewrite rect_surface_area by (cbn [vx vy vz]; assumption). cbn [vx vy vz]. ring.
+Qed.""" % {"O": O, "sunf": _SUNF},
         imports=_IMPORTS,
         expect_structure={"tuple": [{"shape": [8, 3], "data": e8}, {"shape": [12, 3], "dtype": "int64", "data": RECT_FACES}]}))
 
     # ---- triangular_prism, indexed (height concrete for the same reason) ----------------------------------------
     tri_pts = [[1.0, 2.0, 3.0], [0.5, -1.0, 4.0], [0.25, 1.0, 0.5]]
     ks.append(Kernel(
-        "tri_indexed", {"p": tri_pts},
-        lambda p: triangular_prism(p[0], p[1], p[2], 2.5, ret_unique_vertices_and_faces=True),
+        "tri_indexed", {"p": tri_pts, "h": [2.5]},
+        _sym_is_float(lambda p, h: triangular_prism(p[0], p[1], p[2], h[0], ret_unique_vertices_and_faces=True)),
         """Definition code_faces : list face := %(faces)s.
 Lemma code_faces_are_model : code_faces = tri_prism_faces.  Proof. reflexivity. Qed.
 Lemma code_faces_closed : closed_oriented code_faces = true /\\ forallb (face_in_range 6) code_faces = true /\\ length code_faces = 8%%nat.
 Proof. repeat split; vm_compute; reflexivity. Qed.
-Lemma {T}_ok : forall {vars} : R, vecs_of ({T} ROps {vars}) = tri_prism_vertices ROps %(P1)s %(P2)s %(P3)s (5 / 2).
+Lemma {T}_ok : forall {vars} : R, vecs_of ({T} ROps {vars}) = tri_prism_vertices ROps %(P1)s %(P2)s %(P3)s h0.
 Proof. intros. unfold {T}. %(sunf)s; unfold nfrac; rops. %(gen)s.
   repeat (apply cons_eq; [apply V3_ext; first [reflexivity | ring | (unfold Rdiv; ring)]|]). reflexivity. Qed.
-Lemma {T}_property : forall {vars} : R, noncollinear %(P1)s %(P2)s %(P3)s ->
+Lemma {T}_property : forall {vars} : R, noncollinear %(P1)s %(P2)s %(P3)s -> 0 < h0 ->
   let vs := vecs_of ({T} ROps {vars}) in
-  signed_volume ROps vs code_faces = base_area %(P1)s %(P2)s %(P3)s * (5 / 2) /\\
-  surface_area ROps vs code_faces = 2 * base_area %(P1)s %(P2)s %(P3)s + 5 / 2 * perimeter %(P1)s %(P2)s %(P3)s /\\
+  signed_volume ROps vs code_faces = base_area %(P1)s %(P2)s %(P3)s * h0 /\\
+  surface_area ROps vs code_faces = 2 * base_area %(P1)s %(P2)s %(P3)s + h0 * perimeter %(P1)s %(P2)s %(P3)s /\\
   0 < base_area %(P1)s %(P2)s %(P3)s /\\
-  Forall (outward_from (tri_prism_centre %(P1)s %(P2)s %(P3)s (vscale ROps (5 / 2) (vneg ROps (tri_normal ROps %(P1)s %(P2)s %(P3)s)))))
+  Forall (outward_from (tri_prism_centre %(P1)s %(P2)s %(P3)s (vscale ROps h0 (vneg ROps (tri_normal ROps %(P1)s %(P2)s %(P3)s)))))
          (somes (flatten vs code_faces)).
 Proof.
-  intros {vars} H. cbv zeta. rewrite {T}_ok, code_faces_are_model.
+  intros {vars} H Hh. cbv zeta. rewrite {T}_ok, code_faces_are_model.
   split; [apply tri_volume; exact H|]. split; [apply tri_surface_area; [exact H | lra]|].
   split; [apply base_area_pos; exact H | apply tri_outward; [exact H | lra]].
 Qed.""" % {"faces": _faces_coq(tri_faces), "P1": P1, "P2": P2, "P3": P3, "sunf": _SUNF, "gen": _GEN},
@@ -122,10 +152,10 @@ Qed.""" % {"faces": _faces_coq(tri_faces), "P1": P1, "P2": P2, "P3": P3, "sunf":
 
     # ---- triangular_prism, flattened -----------------------------------------------------------------------------
     ks.append(Kernel(
-        "tri_flat", {"p": tri_pts},
-        lambda p: triangular_prism(p[0], p[1], p[2], 0.75),
+        "tri_flat", {"p": tri_pts, "h": [0.75]},
+        _sym_is_float(lambda p, h: triangular_prism(p[0], p[1], p[2], h[0])),
         """Lemma {T}_ok : forall {vars} : R,
-  {T} ROps {vars} = tri_flat_list (flatten (tri_prism_vertices ROps %(P1)s %(P2)s %(P3)s (3 / 4)) tri_prism_faces).
+  {T} ROps {vars} = tri_flat_list (flatten (tri_prism_vertices ROps %(P1)s %(P2)s %(P3)s h0) tri_prism_faces).
 Proof. intros. unfold {T}. %(sunf)s; unfold nfrac; rops. %(gen)s.
   list_eq ltac:(first [reflexivity | ring | (unfold Rdiv; ring)]). Qed.""" % {"P1": P1, "P2": P2, "P3": P3, "sunf": _SUNF, "gen": _GEN},
         imports=_IMPORTS, expect_structure={"shape": [8, 3, 3], "data": ["e"] * 72}))
